@@ -41,6 +41,9 @@ TEMPLATES = {
     "hold": LOGIN + [["pasv"], ["sleep", 0.3], ["quit"]],
     "two": LOGIN + [["epsv"], ["xfer", "STOR", "/u.bin", 3000], ["pasv"], ["xfer", "RETR", "/f.bin"], ["quit"]],
     "nopasv": LOGIN + [["cmd", "PWD"], ["quit"]],
+    "pipe_pasv2": LOGIN + [["pipeline", ["PASV", "PASV"]], ["quit"]],
+    "pipe_pasv_epsv": LOGIN + [["pipeline", ["EPSV", "PASV", "EPSV"]], ["data"], ["xfer", "RETR", "/f.bin"], ["quit"]],
+    "pipe_pasv_cut": LOGIN + [["pipeline", ["PASV", "EPSV"]], ["cut", "rst"]],
 }
 
 
@@ -202,7 +205,7 @@ async def execute(net, hyg, plan):
     await world.stop()
     world.cleanup()
     codes = [s.flat_codes() for s in sessions]
-    requested = any(st[0] in ("pasv", "epsv", "sendcut") for sc in plan["scripts"] for st in sc)
+    requested = any(st[0] in ("pasv", "epsv", "sendcut", "pipeline") for sc in plan["scripts"] for st in sc)
     return {"violations": viol, "monitors": mon, "nevents": len(net.events),
             "sig": sig_of([net.order_signature(), codes, pool]), "nontrivial": requested,
             "codes": codes, "pool": pool}
@@ -309,6 +312,12 @@ def gen_cases(tier, seed):
                            str(PORTS[1]): [errno.EADDRINUSE]},
                 "scripts": [LOGIN + [[cmd], ["sleep", 0.1], ["quit"]], LOGIN + [[cmd], ["quit"]],
                             LOGIN + [[cmd], ["cmd", "PWD"], ["quit"]]]}})
+    # commands sent without waiting for the replies (two listener start-ups of one session in flight at once)
+    for name in ("pipe_pasv2", "pipe_pasv_epsv", "pipe_pasv_cut"):
+        for n in (1, 2, 3):
+            cases.append({"kind": "single", "seed": seed, "plan": {"n": n, "scripts": [TEMPLATES[name]], "yields": [1, 1]}})
+            cases.append({"kind": "single", "seed": seed, "plan": {"n": n, "scripts": [TEMPLATES[name], TEMPLATES["hold"]],
+                                                                   "offsets": [0.003, 0], "yields": [2, 1]}})
     # exhaustive cut positions per script
     cut_scripts = ["retr", "epsv2", "two"] if tier == "quick" else ["retr", "epsv2", "two", "hold", "pasv_fincut"]
     for name in cut_scripts:
